@@ -333,6 +333,7 @@ impl<'tcx> Cx<'tcx> {
                                 let mut o = vec![("adt".to_string(), J::s(self.path(adt.did())))];
                                 if adt.is_enum() {
                                     o.push(("variant".to_string(), J::s(var.name.to_string())));
+                                    o.push(("vidx".to_string(), J::Int(vidx.as_usize() as i128)));
                                 }
                                 let mut fo = Vec::new();
                                 for (i, f) in fields.into_iter().enumerate() {
